@@ -6,6 +6,7 @@ use crate::ctx::{Ctx, Tier, catch, hex, panic_site};
 use crate::adev::{ACore, AEv, AResp, AStep, Script, short_aresp};
 use crate::dev::*;
 use crate::explore::{self, System, V};
+use crate::refregion as rr;
 use lorawan_device::verif::VerifMacState;
 use rayon::prelude::*;
 use serde_json::{Value, json};
@@ -40,7 +41,7 @@ pub struct Sys {
 }
 
 fn payload(n: usize) -> Vec<u8> {
-    (0..n).map(|i| 0x40 + i as u8).collect()
+    (0..n).map(|i| 0x40u8.wrapping_add(i as u8)).collect()
 }
 
 pub fn frames(region: &str) -> Vec<Frame> {
@@ -72,6 +73,10 @@ pub fn frames(region: &str) -> Vec<Frame> {
         d(Fcnt::Rel(1), Tamper::MicEpoch(-1), Some(1), 17, false, vec![]),
         d(Fcnt::Rel(3), Tamper::UplinkType, Some(1), 2, false, vec![]),
         d(Fcnt::Rel(1), Tamper::None, Some(0), 1, false, vec![]),
+        // authentic frames with FPending set: short (12 bytes + 1), with FOpts, and long enough to stay
+        // parseable if FPending were counted into FOptsLen
+        d(Fcnt::Rel(1), Tamper::Pending, Some(1), 1, false, vec![]),
+        d(Fcnt::Rel(1), Tamper::Pending, Some(3), 40, true, vec![0x06]),
     ];
     v[15] = Frame::Down { fcnt: Fcnt::Rel(1), confirmed: false, ack: false, fopts: vec![], port: Some(0), payload: vec![0x06], tamper: Tamper::None };
     if region == "EU868" {
@@ -103,6 +108,40 @@ impl Sys {
             rx2: Some(frames(&cfg.region)[0].clone()),
         });
         Sys { core, dev_accepted: HashSet::new(), max_n: None, alphabet, last_outcome: String::new() }
+    }
+}
+
+impl Sys {
+    /// Part (d): the alphabet is the set of frames at and one above the regional size limit of the two
+    /// windows this configuration opens (uplink data rate from `cfg.dr`, RX1 offset 0, default RX2).
+    pub fn new_table(cfg: &DevCfg) -> Sys {
+        let mut s = Sys::new(cfg);
+        let up = cfg.dr.unwrap_or(0);
+        let adm = |drs: Vec<u8>| -> Vec<u8> { drs.iter().flat_map(|d| rr::max_payload(&cfg.region, *d)).collect() };
+        let adm1 = adm(rr::rx1_dr(&cfg.region, up, 0));
+        let adm2 = adm(vec![rr::rx2_default(&cfg.region).1]);
+        let mut alphabet = vec![];
+        for (w, a) in [(1, adm1), (2, adm2)] {
+            if a.is_empty() {
+                continue;
+            }
+            let lo = *a.iter().min().unwrap() as usize;
+            let hi = *a.iter().max().unwrap() as usize;
+            // (MACPayload length, FOpts): fits under every admissible reading / exceeds every one
+            for (l, fopts) in [(lo, vec![]), (lo, vec![0x06]), (hi + 1, vec![]), (hi + 1, vec![0x06])] {
+                if l + 5 > 255 || l < 9 + fopts.len() {
+                    continue;
+                }
+                let f = Frame::Down { fcnt: Fcnt::Rel(1), confirmed: false, ack: false, port: Some(1), payload: payload(l - 8 - fopts.len()), fopts, tamper: Tamper::None };
+                alphabet.push(if w == 1 {
+                    Ev::Cycle { confirmed: false, port: 1, len: 1, rx1: Some(f), rx2: None }
+                } else {
+                    Ev::Cycle { confirmed: false, port: 1, len: 1, rx1: None, rx2: Some(f) }
+                });
+            }
+        }
+        s.alphabet = alphabet;
+        s
     }
 }
 
@@ -514,6 +553,11 @@ pub fn run(tier: Tier, replay: Option<&str>) {
             println!("next_fcnt_down({last:?},{wire:#x}) = {got:?}, specification {want:?}");
             replay_exit("C05", path, if got != want { vec!["C05|arith".into()] } else { vec![] });
         }
+        if let Some(cc) = c["cfg"].get("size_table_cfg") {
+            let cfg: DevCfg = serde_json::from_value(cc.clone()).expect("cfg");
+            let hist: Vec<Ev> = serde_json::from_value(c["history"].clone()).expect("history");
+            replay_exit("C05", path, explore::replay(&|| Sys::new_table(&cfg), &hist));
+        }
         if let Some(cc) = c["cfg"].get("class_c_cfg") {
             let cfg: DevCfg = serde_json::from_value(cc.clone()).expect("cfg");
             let hist: Vec<CEv> = serde_json::from_value(c["history"].clone()).expect("history");
@@ -555,6 +599,34 @@ pub fn run(tier: Tier, replay: Option<&str>) {
             *outcomes.entry(format!("classc:{k}")).or_insert(0) += v;
         }
     }
+    // part (d): size limits of every region's data rates against the regional parameter tables
+    let mut table_cfgs = 0u64;
+    for region in REGIONS {
+        // uplink data rates the crate implements (DR6/DR7 of the dynamic plans are not: an application that
+        // selects one is outside this property)
+        let ups = match region {
+            "US915" => 0..=4u8,
+            "AU915" => 0..=6,
+            _ => 0..=5,
+        };
+        for up in ups {
+            if rr::dr(region, up).is_none() || rr::rx1_dr(region, up, 0).iter().all(|d| rr::max_payload(region, *d).is_empty()) {
+                continue;
+            }
+            let mut cfg = DevCfg::abp(region);
+            cfg.dr = Some(up);
+            cfg.adr = Some(false);
+            let cj = json!({"size_table_cfg": serde_json::to_value(&cfg).unwrap()});
+            let st = explore::bfs(&ctx, &cj, &|| Sys::new_table(&cfg), 2, 100_000);
+            states += st.states;
+            transitions += st.transitions;
+            capped |= st.capped;
+            table_cfgs += 1;
+            for (k, v) in st.outcomes {
+                *outcomes.entry(format!("table:{k}")).or_insert(0) += v;
+            }
+        }
+    }
     let sample_hist = vec![
         Ev::Cycle { confirmed: false, port: 1, len: 1, rx1: Some(frames("EU868")[0].clone()), rx2: None },
         Ev::Cycle { confirmed: false, port: 1, len: 1, rx1: None, rx2: Some(Frame::ReplayAccepted(0)) },
@@ -569,12 +641,13 @@ pub fn run(tier: Tier, replay: Option<&str>) {
         ],
         "evaluations": ctx.evals(),
         "distinct_nontrivial": states,
-        "rule": "part (a): real next_fcnt_down (hook wrapper) for all 65536 wire values x every `last` in None + [b-W,b+W] around b in {0,0x10000,0x7FFFFFFF,0x80000000,0xFFFF0000,2^32-1} + a stride over the whole range, compared with the u64 specification rule; part (b): BFS over histories of whole uplink transactions on the real nb device, each delivering one frame of the alphabet (fresh +1/+2/+16384/+16385/+65536, same counter, older, replays of the last two accepted frames, forged MIC, other session, MIC under N+-65536, uplink-typed, port 0, at-limit and over-limit sizes) in RX1 or RX2, from sessions whose downlink counter starts at epoch boundaries; part (c): the same on the async device in Class C (idle rxc_listen with one or two receptions, receptions while waiting for RX1 / RX2, followed by a Class A downlink); states = distinct (device snapshot minus uplink/ADR counters, reference counter, last two accepted frames)",
+        "rule": "part (a): real next_fcnt_down (hook wrapper) for all 65536 wire values x every `last` in None + [b-W,b+W] around b in {0,0x10000,0x7FFFFFFF,0x80000000,0xFFFF0000,2^32-1} + a stride over the whole range, compared with the u64 specification rule; part (b): BFS over histories of whole uplink transactions on the real nb device, each delivering one frame of the alphabet (fresh +1/+2/+16384/+16385/+65536, same counter, older, replays of the last two accepted frames, forged MIC, other session, MIC under N+-65536, uplink-typed, port 0, at-limit and over-limit sizes) in RX1 or RX2, from sessions whose downlink counter starts at epoch boundaries; part (c): the same on the async device in Class C (idle rxc_listen with one or two receptions, receptions while waiting for RX1 / RX2, followed by a Class A downlink); part (d): every region x every uplink data rate: frames whose MACPayload is exactly the regional limit of the RX1 / RX2 data rate (with and without FOpts) and one byte above it, histories of two transactions; states = distinct (device snapshot minus uplink/ADR counters, reference counter, last two accepted frames)",
         "arith_last_values": n_last,
         "arith_pairs": n_last * 65536,
         "arith_accepting_pairs": arith_accepts,
         "bfs_depth": depth,
         "bfs_configurations": cfgs.len(),
+        "size_table_configurations": table_cfgs,
         "outcomes": outcomes,
         "exhaustive": !capped,
         "capped": capped,
@@ -595,6 +668,11 @@ pub fn run(tier: Tier, replay: Option<&str>) {
             let hist: Vec<CEv> = serde_json::from_value(cj["history"].clone()).unwrap();
             return explore::replay(&|| SysC::new(&cfg), &hist);
         }
+        if let Some(cc) = cj["cfg"].get("size_table_cfg") {
+            let cfg: DevCfg = serde_json::from_value(cc.clone()).unwrap();
+            let hist: Vec<Ev> = serde_json::from_value(cj["history"].clone()).unwrap();
+            return explore::replay(&|| Sys::new_table(&cfg), &hist);
+        }
         let cfg: DevCfg = serde_json::from_value(cj["cfg"].clone()).unwrap();
         let hist: Vec<Ev> = serde_json::from_value(cj["history"].clone()).unwrap();
         explore::replay(&|| Sys::new(&cfg), &hist)
@@ -604,7 +682,7 @@ pub fn run(tier: Tier, replay: Option<&str>) {
         coverage,
         vec![
             "the implementation is the model (real nb_device::Device driven through its public API); reference acceptor = refcodec + the u64 freshness rule in dev.rs".into(),
-            "the window's size limit is taken from the RfConfig the device bound to the window (its regional correctness is C10's subject)".into(),
+            "the window's size limit is the one the device bound to the window as long as the regional parameters admit that value for the window's modulation (RP002 revisions differ for some rates), otherwise the regional table's; part (d) probes every region's limits at the boundary".into(),
             "DevAddr and direction are not required to be checked: the statement only speaks of MIC and counter".into(),
             "Class C: the async device with Class C enabled receives the same frame alphabet while idle listening and while waiting for RX1 / RX2; after every call the device's downlink counter must equal the reference's last accepted counter and the application must have received exactly the reference's payloads".into(),
         ],
